@@ -1,7 +1,6 @@
-; obligation rt[o0b0l0s0]:parser.parseStateCodeExpr:before(stateCodeExpr.run):assert[ctx]
+; obligation rt[o1b0l1s1]:parser.parseAndCodeExpr:before(andCodeExpr.run):assert[ctx]
 ; clause: p.cur.pos == p.pt.position && len(p.cur.text) == 0
-; at rt.go:1296
-; path: else@rt.go:1292
+; at rt.go:947
 (set-option :produce-models true)
 (set-logic ALL)
 (declare-sort Str 0)
@@ -36,9 +35,9 @@
 (declare-fun unbox_Int (Any) Int)
 (declare-fun DR (Int Slice_Int Int Bool Int Any) Bool)
 (declare-fun D (Any Slice_Int Int Bool Int Any) Bool)
+(declare-fun CloneEq (Any Any) Bool)
 (declare-fun elem_Slice_Any (Slice_Any Int) Any)
 (declare-fun sprintf_3 (Str Any Any Any) Str)
-(declare-fun CloneEq (Any Any) Bool)
 (declare-fun LitPre (Int Slice_Int Int Int Int) Bool)
 (declare-fun toLower (Int) Int)
 (declare-fun box_Slice_Int (Int Slice_Int) Any)
@@ -51,32 +50,29 @@
 (declare-fun RepPre (Any Slice_Int Int Int Int (Array Int Any)) Bool)
 (declare-fun ThrowPre (Slice_Int Int Str Slice_Int Int) Bool)
 (declare-fun TH (Slice_Int Str Slice_Int Int Bool Int Any) Bool)
-(declare-const str!0 Str) ; "parseStateCodeExpr"
-(assert (= (slen str!0) 18))
-(assert (= (runeCount str!0) 18))
-(declare-const str!1 Str) ; ":"
-(assert (= (slen str!1) 1))
-(assert (= (runeCount str!1) 1))
-(assert (= (runeOf str!1 0) 58))
-(declare-const str!2 Str) ; "%d:%d (%d)"
-(assert (= (slen str!2) 10))
-(assert (= (runeCount str!2) 10))
-(declare-const str!3 Str) ; ": "
-(assert (= (slen str!3) 2))
-(assert (= (runeCount str!3) 2))
-(assert (= (runeOf str!3 0) 58))
-(assert (= (runeOf str!3 1) 32))
-(declare-const str!4 Str) ; "rule "
-(assert (= (slen str!4) 5))
-(assert (= (runeCount str!4) 5))
-(assert (= (runeOf str!4 0) 114))
-(assert (= (runeOf str!4 1) 117))
-(assert (= (runeOf str!4 2) 108))
-(assert (= (runeOf str!4 3) 101))
-(assert (= (runeOf str!4 4) 32))
-(assert (distinct str!0 str!1 str!2 str!3 str!4))
+(declare-const str!0 Str) ; ":"
+(assert (= (slen str!0) 1))
+(assert (= (runeCount str!0) 1))
+(assert (= (runeOf str!0 0) 58))
+(declare-const str!1 Str) ; "%d:%d (%d)"
+(assert (= (slen str!1) 10))
+(assert (= (runeCount str!1) 10))
+(declare-const str!2 Str) ; ": "
+(assert (= (slen str!2) 2))
+(assert (= (runeCount str!2) 2))
+(assert (= (runeOf str!2 0) 58))
+(assert (= (runeOf str!2 1) 32))
+(declare-const str!3 Str) ; "rule "
+(assert (= (slen str!3) 5))
+(assert (= (runeCount str!3) 5))
+(assert (= (runeOf str!3 0) 114))
+(assert (= (runeOf str!3 1) 117))
+(assert (= (runeOf str!3 2) 108))
+(assert (= (runeOf str!3 3) 101))
+(assert (= (runeOf str!3 4) 32))
+(assert (distinct str!0 str!1 str!2 str!3))
 (declare-const in_p Int)
-(declare-const in_state Int)
+(declare-const in_and Int)
 (declare-const H_parser_errs@pre (Array Int Int))
 (declare-const H_parser_Stats@pre (Array Int Int))
 (declare-const H_parser_rstack@pre (Array Int Slice_Int))
@@ -86,7 +82,6 @@
 (declare-const Mdom_map_string__rt.rule@pre (Array Int (Array Str Bool)))
 (declare-const Mval_map_string__rt.rule@pre (Array Int (Array Str Int)))
 (declare-const H_rule_name@pre (Array Int Str))
-(declare-const H_Stats_ChoiceAltCnt@pre (Array Int Int))
 (declare-const Alloc@pre (Array Int Bool))
 (declare-const Mdom_map_string_any@pre (Array Int (Array Str Bool)))
 (declare-const Mval_map_string_any@pre (Array Int (Array Str Any)))
@@ -101,16 +96,15 @@
 (declare-const H_Stats_ExprCnt@pre (Array Int Int))
 (declare-const H_parser_maxExprCnt@pre (Array Int Int))
 (declare-const G_statePool@pre Int)
-(declare-const H_parser_debug@pre (Array Int Bool))
 (declare-const H_parser_depth@pre (Array Int Int))
 (declare-const hv!1 Int)
 (declare-const H_parser_depth!2 (Array Int Int))
 (declare-const Alloc!3 (Array Int Bool))
-(declare-const ret_parser_in!4 Str)
+(declare-const ret_parser_cloneState!4 Int)
 (declare-const Mdom_storeDict@pre (Array Int (Array Str Bool)))
+(declare-const Mval_storeDict@pre (Array Int (Array Str Any)))
 (declare-const hv!5 (Array Str Bool))
 (declare-const Mdom_storeDict!6 (Array Int (Array Str Bool)))
-(declare-const Mval_storeDict@pre (Array Int (Array Str Any)))
 (declare-const hv!7 (Array Str Any))
 (declare-const Mval_storeDict!8 (Array Int (Array Str Any)))
 (declare-const hv!9 (Array Str Bool))
@@ -118,38 +112,36 @@
 (declare-const hv!11 (Array Str Any))
 (declare-const Mval_storeDict!12 (Array Int (Array Str Any)))
 (declare-const Alloc!13 (Array Int Bool))
-(declare-const ret_stateCodeExpr_run!14 Any)
-(declare-const hv!15 (Array Str Bool))
-(declare-const Mdom_storeDict!16 (Array Int (Array Str Bool)))
-(declare-const hv!17 (Array Str Any))
-(declare-const Mval_storeDict!18 (Array Int (Array Str Any)))
-(declare-const hv!19 (Array Str Bool))
-(declare-const Mdom_storeDict!20 (Array Int (Array Str Bool)))
-(declare-const hv!21 (Array Str Any))
-(declare-const Mval_storeDict!22 (Array Int (Array Str Any)))
-(declare-const Alloc!23 (Array Int Bool))
-(declare-const ret_stateCodeExpr_run!24 Any)
+(declare-const ret_andCodeExpr_run!14 Bool)
+(declare-const ret_andCodeExpr_run!15 Any)
 (declare-const P_Slice_Any@pre (Array Int Slice_Any))
-(declare-const hv!25 Slice_Any)
-(declare-const P_Slice_Any!26 (Array Int Slice_Any))
-(declare-const Alloc!27 (Array Int Bool))
+(declare-const hv!16 Slice_Any)
+(declare-const P_Slice_Any!17 (Array Int Slice_Any))
+(declare-const Alloc!18 (Array Int Bool))
 (declare-const H_parserError_Inner@pre (Array Int Any))
 (declare-const H_parserError_pos@pre (Array Int S_position))
 (declare-const H_parserError_prefix@pre (Array Int Str))
 (declare-const H_parser_filename@pre (Array Int Str))
 (declare-const H_rule_displayName@pre (Array Int Str))
-(declare-const hv!28 Slice_Any)
-(declare-const P_Slice_Any!29 (Array Int Slice_Any))
-(declare-const Alloc!30 (Array Int Bool))
-(declare-const hv!31 Int)
-(declare-const H_parser_depth!32 (Array Int Int))
-(declare-const Alloc!33 (Array Int Bool))
-(declare-const ret_parser_out!34 Str)
+(declare-const hv!19 S_current)
+(declare-const H_parser_cur!20 (Array Int S_current))
+(declare-const hv!21 (Array Str Bool))
+(declare-const Mdom_storeDict!22 (Array Int (Array Str Bool)))
+(declare-const hv!23 (Array Str Any))
+(declare-const Mval_storeDict!24 (Array Int (Array Str Any)))
+(declare-const hv!25 Int)
+(declare-const H_parser_depth!26 (Array Int Int))
+(declare-const Alloc!27 (Array Int Bool))
+(declare-const hv!28 S_current)
+(declare-const H_parser_cur!29 (Array Int S_current))
+(declare-const hv!30 (Array Str Bool))
+(declare-const Mdom_storeDict!31 (Array Int (Array Str Bool)))
+(declare-const hv!32 (Array Str Any))
+(declare-const Mval_storeDict!33 (Array Int (Array Str Any)))
+(declare-const hv!34 Int)
+(declare-const H_parser_depth!35 (Array Int Int))
+(declare-const Alloc!36 (Array Int Bool))
 (declare-const H_parser_maxFailInvertExpected@pre (Array Int Bool))
-(declare-const hv!35 Int)
-(declare-const H_parser_depth!36 (Array Int Int))
-(declare-const Alloc!37 (Array Int Bool))
-(declare-const ret_parser_out!38 Str)
 (declare-const H_litMatcher_val@pre (Array Int Str))
 (declare-const H_litMatcher_ignoreCase@pre (Array Int Bool))
 (declare-const H_charClassMatcher_ignoreCase@pre (Array Int Bool))
@@ -167,10 +159,15 @@
 (declare-const H_labeledExpr_expr@pre (Array Int Any))
 (declare-const H_actionExpr_expr@pre (Array Int Any))
 (declare-const H_rule_expr@pre (Array Int Any))
+(declare-const H_rule_leftRecursive@pre (Array Int Bool))
 (declare-const H_ruleRefExpr_name@pre (Array Int Str))
 (declare-const H_actionExpr_run@pre (Array Int Int))
 (declare-const H_recoveryExpr_expr@pre (Array Int Any))
 (declare-const H_recoveryExpr_recoverExpr@pre (Array Int Any))
+(declare-const H_andCodeExpr_run@pre (Array Int Int))
+(declare-const H_notCodeExpr_run@pre (Array Int Int))
+(declare-const H_stateCodeExpr_run@pre (Array Int Int))
+(declare-const H_rule_leader@pre (Array Int Bool))
 (assert (= (typeOf nilAny) 0))
 (assert (forall ((x Any)) (! (=> (= (typeOf x) 0) (= x nilAny)) :pattern ((typeOf x)))))
 (assert (forall ((s Str)) (! (>= (slen s) 0) :pattern ((slen s)))))
@@ -239,9 +236,9 @@
 (assert (forall ((q_l Int) (q_d Slice_Int) (q_i Int) (q_ok Bool) (q_j Int) (q_v Any)) (! (=> (D (select H_labeledExpr_expr@pre q_l) q_d q_i q_ok q_j q_v) (D (box_Int 17 q_l) q_d q_i q_ok q_j q_v)) :pattern ((D (select H_labeledExpr_expr@pre q_l) q_d q_i q_ok q_j q_v))))) ; axiom label-intro
 (assert (forall ((q_a Int) (q_d Slice_Int) (q_i Int) (q_j Int) (q_v Any) (q_w Any)) (! (=> (D (select H_actionExpr_expr@pre q_a) q_d q_i true q_j q_v) (D (box_Int 18 q_a) q_d q_i true q_j q_w)) :pattern ((D (select H_actionExpr_expr@pre q_a) q_d q_i true q_j q_v) (D (box_Int 18 q_a) q_d q_i true q_j q_w))))) ; axiom action-ok
 (assert (forall ((q_a Int) (q_d Slice_Int) (q_i Int) (q_v Any)) (! (=> (D (select H_actionExpr_expr@pre q_a) q_d q_i false q_i q_v) (D (box_Int 18 q_a) q_d q_i false q_i nilAny)) :pattern ((D (select H_actionExpr_expr@pre q_a) q_d q_i false q_i q_v))))) ; axiom action-fail
-(assert (forall ((q_a Int) (q_d Slice_Int) (q_i Int) (q_ok Bool)) (! (D (box_Int 19 q_a) q_d q_i q_ok q_i nilAny) :pattern ((D (box_Int 19 q_a) q_d q_i q_ok q_i nilAny))))) ; axiom andcode
-(assert (forall ((q_a Int) (q_d Slice_Int) (q_i Int) (q_ok Bool)) (! (D (box_Int 20 q_a) q_d q_i q_ok q_i nilAny) :pattern ((D (box_Int 20 q_a) q_d q_i q_ok q_i nilAny))))) ; axiom notcode
-(assert (forall ((q_a Int) (q_d Slice_Int) (q_i Int)) (! (D (box_Int 4 q_a) q_d q_i true q_i nilAny) :pattern ((D (box_Int 4 q_a) q_d q_i true q_i nilAny))))) ; axiom statecode
+(assert (forall ((q_a Int) (q_d Slice_Int) (q_i Int) (q_ok Bool)) (! (D (box_Int 4 q_a) q_d q_i q_ok q_i nilAny) :pattern ((D (box_Int 4 q_a) q_d q_i q_ok q_i nilAny))))) ; axiom andcode
+(assert (forall ((q_a Int) (q_d Slice_Int) (q_i Int) (q_ok Bool)) (! (D (box_Int 19 q_a) q_d q_i q_ok q_i nilAny) :pattern ((D (box_Int 19 q_a) q_d q_i q_ok q_i nilAny))))) ; axiom notcode
+(assert (forall ((q_a Int) (q_d Slice_Int) (q_i Int)) (! (D (box_Int 20 q_a) q_d q_i true q_i nilAny) :pattern ((D (box_Int 20 q_a) q_d q_i true q_i nilAny))))) ; axiom statecode
 (assert (forall ((q_t Int) (q_d Slice_Int) (q_i Int) (q_ok Bool) (q_j Int) (q_v Any)) (! (D (box_Int 21 q_t) q_d q_i q_ok q_j q_v) :pattern ((D (box_Int 21 q_t) q_d q_i q_ok q_j q_v))))) ; axiom throw-any
 (assert (forall ((q_r Int) (q_d Slice_Int) (q_i Int) (q_ok Bool) (q_j Int) (q_v Any)) (! (D (box_Int 22 q_r) q_d q_i q_ok q_j q_v) :pattern ((D (box_Int 22 q_r) q_d q_i q_ok q_j q_v))))) ; axiom recovery-any
 (assert (forall ((q_rs Slice_Int) (q_l Str) (q_d Slice_Int) (q_i Int)) (! (ThrowPre q_rs (- (len_Slice_Int q_rs) 1) q_l q_d q_i) :pattern ((ThrowPre q_rs (- (len_Slice_Int q_rs) 1) q_l q_d q_i))))) ; axiom throw-base
@@ -250,9 +247,10 @@
 (assert (forall ((q_rs Slice_Int) (q_n Int) (q_l Str) (q_d Slice_Int) (q_i Int) (q_j Int) (q_v Any)) (! (=> (and (and (and (and (ThrowPre q_rs q_n q_l q_d q_i) (<= 0 q_n)) (< q_n (len_Slice_Int q_rs))) (and (not (= (elem_Slice_Int q_rs q_n) 0)) (select (select Mdom_map_string_any@pre (elem_Slice_Int q_rs q_n)) q_l))) (D (select (select Mval_map_string_any@pre (elem_Slice_Int q_rs q_n)) q_l) q_d q_i true q_j q_v)) (TH q_rs q_l q_d q_i true q_j q_v)) :pattern ((ThrowPre q_rs q_n q_l q_d q_i) (D (select (select Mval_map_string_any@pre (elem_Slice_Int q_rs q_n)) q_l) q_d q_i true q_j q_v))))) ; axiom throw-ok
 (assert (forall ((q_rs Slice_Int) (q_l Str) (q_d Slice_Int) (q_i Int)) (! (=> (ThrowPre q_rs (- 0 1) q_l q_d q_i) (TH q_rs q_l q_d q_i false q_i nilAny)) :pattern ((ThrowPre q_rs (- 0 1) q_l q_d q_i))))) ; axiom throw-fail
 (assert (forall ((q_r Int) (q_d Slice_Int) (q_i Int) (q_ok Bool) (q_j Int) (q_v Any)) (! (=> (D (select H_rule_expr@pre q_r) q_d q_i q_ok q_j q_v) (DR q_r q_d q_i q_ok q_j q_v)) :pattern ((D (select H_rule_expr@pre q_r) q_d q_i q_ok q_j q_v))))) ; axiom rule-intro
+(assert (forall ((q_r Int) (q_d Slice_Int) (q_i Int) (q_ok Bool) (q_j Int) (q_v Any)) (! (=> (select H_rule_leftRecursive@pre q_r) (DR q_r q_d q_i q_ok q_j q_v)) :pattern ((DR q_r q_d q_i q_ok q_j q_v))))) ; axiom rule-lr
 (assert (forall ((q_f Int) (q_r Int) (q_d Slice_Int) (q_i Int) (q_ok Bool) (q_j Int) (q_v Any)) (! (=> (and (and (DR q_r q_d q_i q_ok q_j q_v) (not (= q_r 0))) (= (select H_rule_name@pre q_r) (select H_ruleRefExpr_name@pre q_f))) (D (box_Int 23 q_f) q_d q_i q_ok q_j q_v)) :pattern ((DR q_r q_d q_i q_ok q_j q_v) (D (box_Int 23 q_f) q_d q_i q_ok q_j q_v))))) ; axiom ref-intro
 (assert (forall ((q_f Int) (q_d Slice_Int) (q_i Int)) (! (=> (not (defined (select H_ruleRefExpr_name@pre q_f))) (D (box_Int 23 q_f) q_d q_i false q_i nilAny)) :pattern ((D (box_Int 23 q_f) q_d q_i false q_i nilAny))))) ; axiom ref-undef
-(assert (forall ((q_e Any)) (! (= (IsNode q_e) (or (or (or (or (or (or (or (or (or (or (or (or (or (or (or (or (or (and (= (typeOf q_e) 18) (not (= (unbox_Int q_e) 0))) (and (= (typeOf q_e) 19) (not (= (unbox_Int q_e) 0)))) (and (= (typeOf q_e) 12) (not (= (unbox_Int q_e) 0)))) (and (= (typeOf q_e) 8) (not (= (unbox_Int q_e) 0)))) (and (= (typeOf q_e) 7) (not (= (unbox_Int q_e) 0)))) (and (= (typeOf q_e) 11) (not (= (unbox_Int q_e) 0)))) (and (= (typeOf q_e) 17) (not (= (unbox_Int q_e) 0)))) (and (= (typeOf q_e) 6) (not (= (unbox_Int q_e) 0)))) (and (= (typeOf q_e) 20) (not (= (unbox_Int q_e) 0)))) (and (= (typeOf q_e) 13) (not (= (unbox_Int q_e) 0)))) (and (= (typeOf q_e) 15) (not (= (unbox_Int q_e) 0)))) (and (= (typeOf q_e) 22) (not (= (unbox_Int q_e) 0)))) (and (= (typeOf q_e) 23) (not (= (unbox_Int q_e) 0)))) (and (= (typeOf q_e) 9) (not (= (unbox_Int q_e) 0)))) (and (= (typeOf q_e) 4) (not (= (unbox_Int q_e) 0)))) (and (= (typeOf q_e) 21) (not (= (unbox_Int q_e) 0)))) (and (= (typeOf q_e) 14) (not (= (unbox_Int q_e) 0)))) (and (= (typeOf q_e) 16) (not (= (unbox_Int q_e) 0))))) :pattern ((IsNode q_e))))) ; axiom node-def
+(assert (forall ((q_e Any)) (! (= (IsNode q_e) (or (or (or (or (or (or (or (or (or (or (or (or (or (or (or (or (or (and (= (typeOf q_e) 18) (not (= (unbox_Int q_e) 0))) (and (= (typeOf q_e) 4) (not (= (unbox_Int q_e) 0)))) (and (= (typeOf q_e) 12) (not (= (unbox_Int q_e) 0)))) (and (= (typeOf q_e) 8) (not (= (unbox_Int q_e) 0)))) (and (= (typeOf q_e) 7) (not (= (unbox_Int q_e) 0)))) (and (= (typeOf q_e) 11) (not (= (unbox_Int q_e) 0)))) (and (= (typeOf q_e) 17) (not (= (unbox_Int q_e) 0)))) (and (= (typeOf q_e) 6) (not (= (unbox_Int q_e) 0)))) (and (= (typeOf q_e) 19) (not (= (unbox_Int q_e) 0)))) (and (= (typeOf q_e) 13) (not (= (unbox_Int q_e) 0)))) (and (= (typeOf q_e) 15) (not (= (unbox_Int q_e) 0)))) (and (= (typeOf q_e) 22) (not (= (unbox_Int q_e) 0)))) (and (= (typeOf q_e) 23) (not (= (unbox_Int q_e) 0)))) (and (= (typeOf q_e) 9) (not (= (unbox_Int q_e) 0)))) (and (= (typeOf q_e) 20) (not (= (unbox_Int q_e) 0)))) (and (= (typeOf q_e) 21) (not (= (unbox_Int q_e) 0)))) (and (= (typeOf q_e) 14) (not (= (unbox_Int q_e) 0)))) (and (= (typeOf q_e) 16) (not (= (unbox_Int q_e) 0))))) :pattern ((IsNode q_e))))) ; axiom node-def
 (assert (forall ((q_a Int)) (! (=> (not (= q_a 0)) (and (IsNode (select H_actionExpr_expr@pre q_a)) (not (= (select H_actionExpr_run@pre q_a) 0)))) :pattern ((select H_actionExpr_expr@pre q_a))))) ; axiom wf-action
 (assert (forall ((q_a Int)) (! (=> (not (= q_a 0)) (IsNode (select H_andExpr_expr@pre q_a))) :pattern ((select H_andExpr_expr@pre q_a))))) ; axiom wf-and
 (assert (forall ((q_a Int)) (! (=> (not (= q_a 0)) (IsNode (select H_notExpr_expr@pre q_a))) :pattern ((select H_notExpr_expr@pre q_a))))) ; axiom wf-not
@@ -264,12 +262,16 @@
 (assert (forall ((q_a Int)) (! (=> (not (= q_a 0)) (IsNode (select H_recoveryExpr_recoverExpr@pre q_a))) :pattern ((select H_recoveryExpr_recoverExpr@pre q_a))))) ; axiom wf-recovery2
 (assert (forall ((q_s Int) (q_k Int)) (! (=> (and (and (not (= q_s 0)) (<= 0 q_k)) (< q_k (len_Slice_Any (select H_seqExpr_exprs@pre q_s)))) (IsNode (elem_Slice_Any (select H_seqExpr_exprs@pre q_s) q_k))) :pattern ((elem_Slice_Any (select H_seqExpr_exprs@pre q_s) q_k))))) ; axiom wf-seq
 (assert (forall ((q_c Int) (q_k Int)) (! (=> (and (and (not (= q_c 0)) (<= 0 q_k)) (< q_k (len_Slice_Any (select H_choiceExpr_alternatives@pre q_c)))) (IsNode (elem_Slice_Any (select H_choiceExpr_alternatives@pre q_c) q_k))) :pattern ((elem_Slice_Any (select H_choiceExpr_alternatives@pre q_c) q_k))))) ; axiom wf-choice
+(assert (forall ((q_a Int)) (! (=> (not (= q_a 0)) (not (= (select H_andCodeExpr_run@pre q_a) 0))) :pattern ((select H_andCodeExpr_run@pre q_a))))) ; axiom wf-andcode
+(assert (forall ((q_a Int)) (! (=> (not (= q_a 0)) (not (= (select H_notCodeExpr_run@pre q_a) 0))) :pattern ((select H_notCodeExpr_run@pre q_a))))) ; axiom wf-notcode
+(assert (forall ((q_a Int)) (! (=> (not (= q_a 0)) (not (= (select H_stateCodeExpr_run@pre q_a) 0))) :pattern ((select H_stateCodeExpr_run@pre q_a))))) ; axiom wf-statecode
 (assert (forall ((q_c Int)) (! (=> (not (= q_c 0)) (= (mod (len_Slice_Int (select H_charClassMatcher_ranges@pre q_c)) 2) 0)) :pattern ((select H_charClassMatcher_ranges@pre q_c))))) ; axiom wf-class
 (assert (forall ((q_r Int)) (! (=> (not (= q_r 0)) (IsNode (select H_rule_expr@pre q_r))) :pattern ((select H_rule_expr@pre q_r))))) ; axiom wf-rule
 (assert (forall ((q_a Any)) (! (CloneEq q_a q_a) :pattern ((CloneEq q_a q_a))))) ; axiom cloneeq-refl
 (assert (forall ((q_a Any) (q_b Any) (q_c Any)) (! (=> (and (CloneEq q_a q_b) (CloneEq q_b q_c)) (CloneEq q_a q_c)) :pattern ((CloneEq q_a q_b) (CloneEq q_b q_c))))) ; axiom cloneeq-trans
+(assert (forall ((q_r Int)) (! (=> (and (not (= q_r 0)) (select H_rule_leader@pre q_r)) (select H_rule_leftRecursive@pre q_r)) :pattern ((select H_rule_leader@pre q_r))))) ; axiom wf-leader
 (assert (forall ((q_b Slice_Int)) (! (and (=> (= (len_Slice_Int q_b) 0) (and (= (decR q_b) 65533) (= (decW q_b) 0))) (=> (> (len_Slice_Int q_b) 0) (and (and (<= 1 (decW q_b)) (<= (decW q_b) 4)) (<= (decW q_b) (len_Slice_Int q_b))))) :pattern ((decW q_b))))) ; axiom dec-eof
-(assert (forall ((q_a Any) (q_b Any) (q_c Any)) (! (> (slen (sprintf_3 str!2 q_a q_b q_c)) 0) :pattern ((sprintf_3 str!2 q_a q_b q_c))))) ; axiom sprintf-pos-nonempty
+(assert (forall ((q_a Any) (q_b Any) (q_c Any)) (! (> (slen (sprintf_3 str!1 q_a q_b q_c)) 0) :pattern ((sprintf_3 str!1 q_a q_b q_c))))) ; axiom sprintf-pos-nonempty
 (assert (forall ((q_b Slice_Int)) (! (and (<= 0 (decR q_b)) (<= (decR q_b) 1114111)) :pattern ((decR q_b))))) ; axiom dec-range
 (assert (forall ((q_l Int) (q_d Slice_Int) (q_i Int)) (! (LitPre q_l q_d 0 q_i q_i) :pattern ((LitPre q_l q_d 0 q_i q_i))))) ; axiom lit-base
 (assert (forall ((q_s Int) (q_d Slice_Int) (q_i Int) (q_a (Array Int Any))) (! (SeqPre q_s q_d 0 q_i q_i q_a) :pattern ((SeqPre q_s q_d 0 q_i q_i q_a))))) ; axiom seq-base
@@ -285,9 +287,13 @@
 (assert (forall ((r Int)) (! (and (<= 0 (len_Slice_Int (select H_charClassMatcher_classes@pre r))) (<= (len_Slice_Int (select H_charClassMatcher_classes@pre r)) (cap_Slice_Int (select H_charClassMatcher_classes@pre r))) (<= 0 (off_Slice_Int (select H_charClassMatcher_classes@pre r)))) :pattern ((select H_charClassMatcher_classes@pre r)))))
 (assert (forall ((r Int)) (! (and (<= 0 (len_Slice_Any (select H_seqExpr_exprs@pre r))) (<= (len_Slice_Any (select H_seqExpr_exprs@pre r)) (cap_Slice_Any (select H_seqExpr_exprs@pre r))) (<= 0 (off_Slice_Any (select H_seqExpr_exprs@pre r)))) :pattern ((select H_seqExpr_exprs@pre r)))))
 (assert (forall ((r Int)) (! (and (<= 0 (len_Slice_Any (select H_choiceExpr_alternatives@pre r))) (<= (len_Slice_Any (select H_choiceExpr_alternatives@pre r)) (cap_Slice_Any (select H_choiceExpr_alternatives@pre r))) (<= 0 (off_Slice_Any (select H_choiceExpr_alternatives@pre r)))) :pattern ((select H_choiceExpr_alternatives@pre r)))))
-(assert (and (and (and (and (and (and (and (and (and (and (and (and (and (and (not (= in_p 0)) (not (= (select H_parser_errs@pre in_p) 0))) (not (= (select H_parser_Stats@pre in_p) 0))) (forall ((q_k Int)) (=> (and (<= 0 q_k) (< q_k (len_Slice_Int (select H_parser_rstack@pre in_p)))) (not (= (elem_Slice_Int (select H_parser_rstack@pre in_p) q_k) 0))))) (forall ((q_k Int)) (=> (and (<= 0 q_k) (< q_k (len_Slice_Int (select H_parser_vstack@pre in_p)))) (not (= (elem_Slice_Int (select H_parser_vstack@pre in_p) q_k) 0))))) (forall ((q_k Int)) (=> (and (<= 0 q_k) (< q_k (len_Slice_Int (select H_parser_recoveryStack@pre in_p)))) (not (= (elem_Slice_Int (select H_parser_recoveryStack@pre in_p) q_k) 0))))) (forall ((q_n Str)) (! (and (= (and (not (= (select H_parser_rules@pre in_p) 0)) (select (select Mdom_map_string__rt.rule@pre (select H_parser_rules@pre in_p)) q_n)) (defined q_n)) (=> (and (not (= (select H_parser_rules@pre in_p) 0)) (select (select Mdom_map_string__rt.rule@pre (select H_parser_rules@pre in_p)) q_n)) (and (not (= (select (select Mval_map_string__rt.rule@pre (select H_parser_rules@pre in_p)) q_n) 0)) (= (select H_rule_name@pre (select (select Mval_map_string__rt.rule@pre (select H_parser_rules@pre in_p)) q_n)) q_n)))) :pattern ((select (select Mdom_map_string__rt.rule@pre (select H_parser_rules@pre in_p)) q_n))))) (not (= (select H_Stats_ChoiceAltCnt@pre (select H_parser_Stats@pre in_p)) 0))) (forall ((q_k Int)) (! (=> (and (<= 0 q_k) (< q_k (cap_Slice_Int (select H_parser_vstack@pre in_p)))) (or (= (elem_Slice_Int (select H_parser_vstack@pre in_p) q_k) 0) (select Alloc@pre (elem_Slice_Int (select H_parser_vstack@pre in_p) q_k)))) :pattern ((elem_Slice_Int (select H_parser_vstack@pre in_p) q_k))))) (and (and (forall ((q_j Int)) (! (=> (and (<= 0 q_j) (< q_j (len_Slice_Int (select H_parser_recoveryStack@pre in_p)))) (select Alloc@pre (elem_Slice_Int (select H_parser_recoveryStack@pre in_p) q_j))) :pattern ((elem_Slice_Int (select H_parser_recoveryStack@pre in_p) q_j)))) (forall ((q_j Int) (q_k Int)) (! (=> (and (and (and (<= 0 q_j) (< q_j (len_Slice_Int (select H_parser_recoveryStack@pre in_p)))) (<= 0 q_k)) (< q_k (cap_Slice_Int (select H_parser_vstack@pre in_p)))) (not (= (elem_Slice_Int (select H_parser_recoveryStack@pre in_p) q_j) (elem_Slice_Int (select H_parser_vstack@pre in_p) q_k)))) :pattern ((elem_Slice_Int (select H_parser_recoveryStack@pre in_p) q_j) (elem_Slice_Int (select H_parser_vstack@pre in_p) q_k))))) (forall ((q_j Int) (q_l Str)) (! (=> (and (and (<= 0 q_j) (< q_j (len_Slice_Int (select H_parser_recoveryStack@pre in_p)))) (and (not (= (elem_Slice_Int (select H_parser_recoveryStack@pre in_p) q_j) 0)) (select (select Mdom_map_string_any@pre (elem_Slice_Int (select H_parser_recoveryStack@pre in_p) q_j)) q_l))) (IsNode (select (select Mval_map_string_any@pre (elem_Slice_Int (select H_parser_recoveryStack@pre in_p) q_j)) q_l))) :pattern ((select (select Mdom_map_string_any@pre (elem_Slice_Int (select H_parser_recoveryStack@pre in_p) q_j)) q_l)))))) (and (and (and (and (and (and (bnd (select H_parser_data@pre in_p) (S_position_offset (S_savepoint_position (select H_parser_pt@pre in_p)))) (<= 0 (S_position_offset (S_savepoint_position (select H_parser_pt@pre in_p))))) (<= (S_position_offset (S_savepoint_position (select H_parser_pt@pre in_p))) (len_Slice_Int (select H_parser_data@pre in_p)))) (= (S_savepoint_rn (select H_parser_pt@pre in_p)) (decR (mk_Slice_Int (arr_Slice_Int (select H_parser_data@pre in_p)) (+ (off_Slice_Int (select H_parser_data@pre in_p)) (S_position_offset (S_savepoint_position (select H_parser_pt@pre in_p)))) (- (len_Slice_Int (select H_parser_data@pre in_p)) (S_position_offset (S_savepoint_position (select H_parser_pt@pre in_p)))) (- (cap_Slice_Int (select H_parser_data@pre in_p)) (S_position_offset (S_savepoint_position (select H_parser_pt@pre in_p)))))))) (= (S_savepoint_w (select H_parser_pt@pre in_p)) (decW (mk_Slice_Int (arr_Slice_Int (select H_parser_data@pre in_p)) (+ (off_Slice_Int (select H_parser_data@pre in_p)) (S_position_offset (S_savepoint_position (select H_parser_pt@pre in_p)))) (- (len_Slice_Int (select H_parser_data@pre in_p)) (S_position_offset (S_savepoint_position (select H_parser_pt@pre in_p)))) (- (cap_Slice_Int (select H_parser_data@pre in_p)) (S_position_offset (S_savepoint_position (select H_parser_pt@pre in_p)))))))) (= (S_position_line (S_savepoint_position (select H_parser_pt@pre in_p))) (lineAt (select H_parser_data@pre in_p) (S_position_offset (S_savepoint_position (select H_parser_pt@pre in_p)))))) (= (S_position_col (S_savepoint_position (select H_parser_pt@pre in_p))) (colAt (select H_parser_data@pre in_p) (S_position_offset (S_savepoint_position (select H_parser_pt@pre in_p))))))) (and (and (and (and (not (= (S_current_state (select H_parser_cur@pre in_p)) 0)) (select Alloc@pre (S_current_state (select H_parser_cur@pre in_p)))) (not (= (S_current_globalStore (select H_parser_cur@pre in_p)) 0))) (select Alloc@pre (S_current_globalStore (select H_parser_cur@pre in_p)))) (not (= (S_current_state (select H_parser_cur@pre in_p)) (S_current_globalStore (select H_parser_cur@pre in_p)))))) (and (and (forall ((q_o Int)) (! (=> (and (not (= (select H_parser_memo@pre in_p) 0)) (select (select Mdom_map_int_map_any_rt.resultTuple@pre (select H_parser_memo@pre in_p)) q_o)) (and (not (= (select (select Mval_map_int_map_any_rt.resultTuple@pre (select H_parser_memo@pre in_p)) q_o) 0)) (select Alloc@pre (select (select Mval_map_int_map_any_rt.resultTuple@pre (select H_parser_memo@pre in_p)) q_o)))) :pattern ((select (select Mdom_map_int_map_any_rt.resultTuple@pre (select H_parser_memo@pre in_p)) q_o)))) (forall ((q_o1 Int) (q_o2 Int)) (! (=> (and (and (and (not (= (select H_parser_memo@pre in_p) 0)) (select (select Mdom_map_int_map_any_rt.resultTuple@pre (select H_parser_memo@pre in_p)) q_o1)) (and (not (= (select H_parser_memo@pre in_p) 0)) (select (select Mdom_map_int_map_any_rt.resultTuple@pre (select H_parser_memo@pre in_p)) q_o2))) (not (= q_o1 q_o2))) (not (= (select (select Mval_map_int_map_any_rt.resultTuple@pre (select H_parser_memo@pre in_p)) q_o1) (select (select Mval_map_int_map_any_rt.resultTuple@pre (select H_parser_memo@pre in_p)) q_o2)))) :pattern ((select (select Mdom_map_int_map_any_rt.resultTuple@pre (select H_parser_memo@pre in_p)) q_o1) (select (select Mdom_map_int_map_any_rt.resultTuple@pre (select H_parser_memo@pre in_p)) q_o2))))) (forall ((q_o Int) (q_n Any)) (! (=> (and (and (not (= (select H_parser_memo@pre in_p) 0)) (select (select Mdom_map_int_map_any_rt.resultTuple@pre (select H_parser_memo@pre in_p)) q_o)) (and (not (= (select (select Mval_map_int_map_any_rt.resultTuple@pre (select H_parser_memo@pre in_p)) q_o) 0)) (select (select Mdom_map_any_rt.resultTuple@pre (select (select Mval_map_int_map_any_rt.resultTuple@pre (select H_parser_memo@pre in_p)) q_o)) q_n))) (and (and (and (and (and (and (and (and (and (bnd (select H_parser_data@pre in_p) (S_position_offset (S_savepoint_position (S_resultTuple_end (select (select Mval_map_any_rt.resultTuple@pre (select (select Mval_map_int_map_any_rt.resultTuple@pre (select H_parser_memo@pre in_p)) q_o)) q_n))))) (<= 0 (S_position_offset (S_savepoint_position (S_resultTuple_end (select (select Mval_map_any_rt.resultTuple@pre (select (select Mval_map_int_map_any_rt.resultTuple@pre (select H_parser_memo@pre in_p)) q_o)) q_n)))))) (<= (S_position_offset (S_savepoint_position (S_resultTuple_end (select (select Mval_map_any_rt.resultTuple@pre (select (select Mval_map_int_map_any_rt.resultTuple@pre (select H_parser_memo@pre in_p)) q_o)) q_n)))) (len_Slice_Int (select H_parser_data@pre in_p)))) (= (S_savepoint_rn (S_resultTuple_end (select (select Mval_map_any_rt.resultTuple@pre (select (select Mval_map_int_map_any_rt.resultTuple@pre (select H_parser_memo@pre in_p)) q_o)) q_n))) (decR (mk_Slice_Int (arr_Slice_Int (select H_parser_data@pre in_p)) (+ (off_Slice_Int (select H_parser_data@pre in_p)) (S_position_offset (S_savepoint_position (S_resultTuple_end (select (select Mval_map_any_rt.resultTuple@pre (select (select Mval_map_int_map_any_rt.resultTuple@pre (select H_parser_memo@pre in_p)) q_o)) q_n))))) (- (len_Slice_Int (select H_parser_data@pre in_p)) (S_position_offset (S_savepoint_position (S_resultTuple_end (select (select Mval_map_any_rt.resultTuple@pre (select (select Mval_map_int_map_any_rt.resultTuple@pre (select H_parser_memo@pre in_p)) q_o)) q_n))))) (- (cap_Slice_Int (select H_parser_data@pre in_p)) (S_position_offset (S_savepoint_position (S_resultTuple_end (select (select Mval_map_any_rt.resultTuple@pre (select (select Mval_map_int_map_any_rt.resultTuple@pre (select H_parser_memo@pre in_p)) q_o)) q_n))))))))) (= (S_savepoint_w (S_resultTuple_end (select (select Mval_map_any_rt.resultTuple@pre (select (select Mval_map_int_map_any_rt.resultTuple@pre (select H_parser_memo@pre in_p)) q_o)) q_n))) (decW (mk_Slice_Int (arr_Slice_Int (select H_parser_data@pre in_p)) (+ (off_Slice_Int (select H_parser_data@pre in_p)) (S_position_offset (S_savepoint_position (S_resultTuple_end (select (select Mval_map_any_rt.resultTuple@pre (select (select Mval_map_int_map_any_rt.resultTuple@pre (select H_parser_memo@pre in_p)) q_o)) q_n))))) (- (len_Slice_Int (select H_parser_data@pre in_p)) (S_position_offset (S_savepoint_position (S_resultTuple_end (select (select Mval_map_any_rt.resultTuple@pre (select (select Mval_map_int_map_any_rt.resultTuple@pre (select H_parser_memo@pre in_p)) q_o)) q_n))))) (- (cap_Slice_Int (select H_parser_data@pre in_p)) (S_position_offset (S_savepoint_position (S_resultTuple_end (select (select Mval_map_any_rt.resultTuple@pre (select (select Mval_map_int_map_any_rt.resultTuple@pre (select H_parser_memo@pre in_p)) q_o)) q_n))))))))) (= (S_position_line (S_savepoint_position (S_resultTuple_end (select (select Mval_map_any_rt.resultTuple@pre (select (select Mval_map_int_map_any_rt.resultTuple@pre (select H_parser_memo@pre in_p)) q_o)) q_n)))) (lineAt (select H_parser_data@pre in_p) (S_position_offset (S_savepoint_position (S_resultTuple_end (select (select Mval_map_any_rt.resultTuple@pre (select (select Mval_map_int_map_any_rt.resultTuple@pre (select H_parser_memo@pre in_p)) q_o)) q_n))))))) (= (S_position_col (S_savepoint_position (S_resultTuple_end (select (select Mval_map_any_rt.resultTuple@pre (select (select Mval_map_int_map_any_rt.resultTuple@pre (select H_parser_memo@pre in_p)) q_o)) q_n)))) (colAt (select H_parser_data@pre in_p) (S_position_offset (S_savepoint_position (S_resultTuple_end (select (select Mval_map_any_rt.resultTuple@pre (select (select Mval_map_int_map_any_rt.resultTuple@pre (select H_parser_memo@pre in_p)) q_o)) q_n))))))) (>= (S_position_offset (S_savepoint_position (S_resultTuple_end (select (select Mval_map_any_rt.resultTuple@pre (select (select Mval_map_int_map_any_rt.resultTuple@pre (select H_parser_memo@pre in_p)) q_o)) q_n)))) q_o)) (=> (not (S_resultTuple_b (select (select Mval_map_any_rt.resultTuple@pre (select (select Mval_map_int_map_any_rt.resultTuple@pre (select H_parser_memo@pre in_p)) q_o)) q_n))) (and (= (S_position_offset (S_savepoint_position (S_resultTuple_end (select (select Mval_map_any_rt.resultTuple@pre (select (select Mval_map_int_map_any_rt.resultTuple@pre (select H_parser_memo@pre in_p)) q_o)) q_n)))) q_o) (= (S_resultTuple_v (select (select Mval_map_any_rt.resultTuple@pre (select (select Mval_map_int_map_any_rt.resultTuple@pre (select H_parser_memo@pre in_p)) q_o)) q_n)) nilAny)))) (ite (= (typeOf q_n) 1) (and (not (= (unbox_Int q_n) 0)) (DR (unbox_Int q_n) (select H_parser_data@pre in_p) q_o (S_resultTuple_b (select (select Mval_map_any_rt.resultTuple@pre (select (select Mval_map_int_map_any_rt.resultTuple@pre (select H_parser_memo@pre in_p)) q_o)) q_n)) (S_position_offset (S_savepoint_position (S_resultTuple_end (select (select Mval_map_any_rt.resultTuple@pre (select (select Mval_map_int_map_any_rt.resultTuple@pre (select H_parser_memo@pre in_p)) q_o)) q_n)))) (S_resultTuple_v (select (select Mval_map_any_rt.resultTuple@pre (select (select Mval_map_int_map_any_rt.resultTuple@pre (select H_parser_memo@pre in_p)) q_o)) q_n)))) (and (IsNode q_n) (D q_n (select H_parser_data@pre in_p) q_o (S_resultTuple_b (select (select Mval_map_any_rt.resultTuple@pre (select (select Mval_map_int_map_any_rt.resultTuple@pre (select H_parser_memo@pre in_p)) q_o)) q_n)) (S_position_offset (S_savepoint_position (S_resultTuple_end (select (select Mval_map_any_rt.resultTuple@pre (select (select Mval_map_int_map_any_rt.resultTuple@pre (select H_parser_memo@pre in_p)) q_o)) q_n)))) (S_resultTuple_v (select (select Mval_map_any_rt.resultTuple@pre (select (select Mval_map_int_map_any_rt.resultTuple@pre (select H_parser_memo@pre in_p)) q_o)) q_n))))))) :pattern ((select (select Mdom_map_any_rt.resultTuple@pre (select (select Mval_map_int_map_any_rt.resultTuple@pre (select H_parser_memo@pre in_p)) q_o)) q_n)))))) (and (>= (len_Slice_Int (select H_parser_vstack@pre in_p)) 1) (>= (len_Slice_Int (select H_parser_rstack@pre in_p)) 1))) (not (= in_state 0))))
+(assert (and (and (and (and (and (and (and (and (and (and (and (and (and (and (not (= in_p 0)) (not (= (select H_parser_errs@pre in_p) 0))) (not (= (select H_parser_Stats@pre in_p) 0))) (forall ((q_k Int)) (=> (and (<= 0 q_k) (< q_k (len_Slice_Int (select H_parser_rstack@pre in_p)))) (not (= (elem_Slice_Int (select H_parser_rstack@pre in_p) q_k) 0))))) (forall ((q_k Int)) (=> (and (<= 0 q_k) (< q_k (len_Slice_Int (select H_parser_vstack@pre in_p)))) (not (= (elem_Slice_Int (select H_parser_vstack@pre in_p) q_k) 0))))) (forall ((q_k Int)) (=> (and (<= 0 q_k) (< q_k (len_Slice_Int (select H_parser_recoveryStack@pre in_p)))) (not (= (elem_Slice_Int (select H_parser_recoveryStack@pre in_p) q_k) 0))))) (forall ((q_n Str)) (! (and (= (and (not (= (select H_parser_rules@pre in_p) 0)) (select (select Mdom_map_string__rt.rule@pre (select H_parser_rules@pre in_p)) q_n)) (defined q_n)) (=> (and (not (= (select H_parser_rules@pre in_p) 0)) (select (select Mdom_map_string__rt.rule@pre (select H_parser_rules@pre in_p)) q_n)) (and (not (= (select (select Mval_map_string__rt.rule@pre (select H_parser_rules@pre in_p)) q_n) 0)) (= (select H_rule_name@pre (select (select Mval_map_string__rt.rule@pre (select H_parser_rules@pre in_p)) q_n)) q_n)))) :pattern ((select (select Mdom_map_string__rt.rule@pre (select H_parser_rules@pre in_p)) q_n))))) true) (forall ((q_k Int)) (! (=> (and (<= 0 q_k) (< q_k (cap_Slice_Int (select H_parser_vstack@pre in_p)))) (or (= (elem_Slice_Int (select H_parser_vstack@pre in_p) q_k) 0) (select Alloc@pre (elem_Slice_Int (select H_parser_vstack@pre in_p) q_k)))) :pattern ((elem_Slice_Int (select H_parser_vstack@pre in_p) q_k))))) (and (and (forall ((q_j Int)) (! (=> (and (<= 0 q_j) (< q_j (len_Slice_Int (select H_parser_recoveryStack@pre in_p)))) (select Alloc@pre (elem_Slice_Int (select H_parser_recoveryStack@pre in_p) q_j))) :pattern ((elem_Slice_Int (select H_parser_recoveryStack@pre in_p) q_j)))) (forall ((q_j Int) (q_k Int)) (! (=> (and (and (and (<= 0 q_j) (< q_j (len_Slice_Int (select H_parser_recoveryStack@pre in_p)))) (<= 0 q_k)) (< q_k (cap_Slice_Int (select H_parser_vstack@pre in_p)))) (not (= (elem_Slice_Int (select H_parser_recoveryStack@pre in_p) q_j) (elem_Slice_Int (select H_parser_vstack@pre in_p) q_k)))) :pattern ((elem_Slice_Int (select H_parser_recoveryStack@pre in_p) q_j) (elem_Slice_Int (select H_parser_vstack@pre in_p) q_k))))) (forall ((q_j Int) (q_l Str)) (! (=> (and (and (<= 0 q_j) (< q_j (len_Slice_Int (select H_parser_recoveryStack@pre in_p)))) (and (not (= (elem_Slice_Int (select H_parser_recoveryStack@pre in_p) q_j) 0)) (select (select Mdom_map_string_any@pre (elem_Slice_Int (select H_parser_recoveryStack@pre in_p) q_j)) q_l))) (IsNode (select (select Mval_map_string_any@pre (elem_Slice_Int (select H_parser_recoveryStack@pre in_p) q_j)) q_l))) :pattern ((select (select Mdom_map_string_any@pre (elem_Slice_Int (select H_parser_recoveryStack@pre in_p) q_j)) q_l)))))) (and (and (and (and (and (and (bnd (select H_parser_data@pre in_p) (S_position_offset (S_savepoint_position (select H_parser_pt@pre in_p)))) (<= 0 (S_position_offset (S_savepoint_position (select H_parser_pt@pre in_p))))) (<= (S_position_offset (S_savepoint_position (select H_parser_pt@pre in_p))) (len_Slice_Int (select H_parser_data@pre in_p)))) (= (S_savepoint_rn (select H_parser_pt@pre in_p)) (decR (mk_Slice_Int (arr_Slice_Int (select H_parser_data@pre in_p)) (+ (off_Slice_Int (select H_parser_data@pre in_p)) (S_position_offset (S_savepoint_position (select H_parser_pt@pre in_p)))) (- (len_Slice_Int (select H_parser_data@pre in_p)) (S_position_offset (S_savepoint_position (select H_parser_pt@pre in_p)))) (- (cap_Slice_Int (select H_parser_data@pre in_p)) (S_position_offset (S_savepoint_position (select H_parser_pt@pre in_p)))))))) (= (S_savepoint_w (select H_parser_pt@pre in_p)) (decW (mk_Slice_Int (arr_Slice_Int (select H_parser_data@pre in_p)) (+ (off_Slice_Int (select H_parser_data@pre in_p)) (S_position_offset (S_savepoint_position (select H_parser_pt@pre in_p)))) (- (len_Slice_Int (select H_parser_data@pre in_p)) (S_position_offset (S_savepoint_position (select H_parser_pt@pre in_p)))) (- (cap_Slice_Int (select H_parser_data@pre in_p)) (S_position_offset (S_savepoint_position (select H_parser_pt@pre in_p)))))))) (= (S_position_line (S_savepoint_position (select H_parser_pt@pre in_p))) (lineAt (select H_parser_data@pre in_p) (S_position_offset (S_savepoint_position (select H_parser_pt@pre in_p)))))) (= (S_position_col (S_savepoint_position (select H_parser_pt@pre in_p))) (colAt (select H_parser_data@pre in_p) (S_position_offset (S_savepoint_position (select H_parser_pt@pre in_p))))))) (and (and (and (and (not (= (S_current_state (select H_parser_cur@pre in_p)) 0)) (select Alloc@pre (S_current_state (select H_parser_cur@pre in_p)))) (not (= (S_current_globalStore (select H_parser_cur@pre in_p)) 0))) (select Alloc@pre (S_current_globalStore (select H_parser_cur@pre in_p)))) (not (= (S_current_state (select H_parser_cur@pre in_p)) (S_current_globalStore (select H_parser_cur@pre in_p)))))) (and (and (forall ((q_o Int)) (! (=> (and (not (= (select H_parser_memo@pre in_p) 0)) (select (select Mdom_map_int_map_any_rt.resultTuple@pre (select H_parser_memo@pre in_p)) q_o)) (and (not (= (select (select Mval_map_int_map_any_rt.resultTuple@pre (select H_parser_memo@pre in_p)) q_o) 0)) (select Alloc@pre (select (select Mval_map_int_map_any_rt.resultTuple@pre (select H_parser_memo@pre in_p)) q_o)))) :pattern ((select (select Mdom_map_int_map_any_rt.resultTuple@pre (select H_parser_memo@pre in_p)) q_o)))) (forall ((q_o1 Int) (q_o2 Int)) (! (=> (and (and (and (not (= (select H_parser_memo@pre in_p) 0)) (select (select Mdom_map_int_map_any_rt.resultTuple@pre (select H_parser_memo@pre in_p)) q_o1)) (and (not (= (select H_parser_memo@pre in_p) 0)) (select (select Mdom_map_int_map_any_rt.resultTuple@pre (select H_parser_memo@pre in_p)) q_o2))) (not (= q_o1 q_o2))) (not (= (select (select Mval_map_int_map_any_rt.resultTuple@pre (select H_parser_memo@pre in_p)) q_o1) (select (select Mval_map_int_map_any_rt.resultTuple@pre (select H_parser_memo@pre in_p)) q_o2)))) :pattern ((select (select Mdom_map_int_map_any_rt.resultTuple@pre (select H_parser_memo@pre in_p)) q_o1) (select (select Mdom_map_int_map_any_rt.resultTuple@pre (select H_parser_memo@pre in_p)) q_o2))))) (forall ((q_o Int) (q_n Any)) (! (=> (and (and (not (= (select H_parser_memo@pre in_p) 0)) (select (select Mdom_map_int_map_any_rt.resultTuple@pre (select H_parser_memo@pre in_p)) q_o)) (and (not (= (select (select Mval_map_int_map_any_rt.resultTuple@pre (select H_parser_memo@pre in_p)) q_o) 0)) (select (select Mdom_map_any_rt.resultTuple@pre (select (select Mval_map_int_map_any_rt.resultTuple@pre (select H_parser_memo@pre in_p)) q_o)) q_n))) (and (and (and (and (and (and (and (and (and (bnd (select H_parser_data@pre in_p) (S_position_offset (S_savepoint_position (S_resultTuple_end (select (select Mval_map_any_rt.resultTuple@pre (select (select Mval_map_int_map_any_rt.resultTuple@pre (select H_parser_memo@pre in_p)) q_o)) q_n))))) (<= 0 (S_position_offset (S_savepoint_position (S_resultTuple_end (select (select Mval_map_any_rt.resultTuple@pre (select (select Mval_map_int_map_any_rt.resultTuple@pre (select H_parser_memo@pre in_p)) q_o)) q_n)))))) (<= (S_position_offset (S_savepoint_position (S_resultTuple_end (select (select Mval_map_any_rt.resultTuple@pre (select (select Mval_map_int_map_any_rt.resultTuple@pre (select H_parser_memo@pre in_p)) q_o)) q_n)))) (len_Slice_Int (select H_parser_data@pre in_p)))) (= (S_savepoint_rn (S_resultTuple_end (select (select Mval_map_any_rt.resultTuple@pre (select (select Mval_map_int_map_any_rt.resultTuple@pre (select H_parser_memo@pre in_p)) q_o)) q_n))) (decR (mk_Slice_Int (arr_Slice_Int (select H_parser_data@pre in_p)) (+ (off_Slice_Int (select H_parser_data@pre in_p)) (S_position_offset (S_savepoint_position (S_resultTuple_end (select (select Mval_map_any_rt.resultTuple@pre (select (select Mval_map_int_map_any_rt.resultTuple@pre (select H_parser_memo@pre in_p)) q_o)) q_n))))) (- (len_Slice_Int (select H_parser_data@pre in_p)) (S_position_offset (S_savepoint_position (S_resultTuple_end (select (select Mval_map_any_rt.resultTuple@pre (select (select Mval_map_int_map_any_rt.resultTuple@pre (select H_parser_memo@pre in_p)) q_o)) q_n))))) (- (cap_Slice_Int (select H_parser_data@pre in_p)) (S_position_offset (S_savepoint_position (S_resultTuple_end (select (select Mval_map_any_rt.resultTuple@pre (select (select Mval_map_int_map_any_rt.resultTuple@pre (select H_parser_memo@pre in_p)) q_o)) q_n))))))))) (= (S_savepoint_w (S_resultTuple_end (select (select Mval_map_any_rt.resultTuple@pre (select (select Mval_map_int_map_any_rt.resultTuple@pre (select H_parser_memo@pre in_p)) q_o)) q_n))) (decW (mk_Slice_Int (arr_Slice_Int (select H_parser_data@pre in_p)) (+ (off_Slice_Int (select H_parser_data@pre in_p)) (S_position_offset (S_savepoint_position (S_resultTuple_end (select (select Mval_map_any_rt.resultTuple@pre (select (select Mval_map_int_map_any_rt.resultTuple@pre (select H_parser_memo@pre in_p)) q_o)) q_n))))) (- (len_Slice_Int (select H_parser_data@pre in_p)) (S_position_offset (S_savepoint_position (S_resultTuple_end (select (select Mval_map_any_rt.resultTuple@pre (select (select Mval_map_int_map_any_rt.resultTuple@pre (select H_parser_memo@pre in_p)) q_o)) q_n))))) (- (cap_Slice_Int (select H_parser_data@pre in_p)) (S_position_offset (S_savepoint_position (S_resultTuple_end (select (select Mval_map_any_rt.resultTuple@pre (select (select Mval_map_int_map_any_rt.resultTuple@pre (select H_parser_memo@pre in_p)) q_o)) q_n))))))))) (= (S_position_line (S_savepoint_position (S_resultTuple_end (select (select Mval_map_any_rt.resultTuple@pre (select (select Mval_map_int_map_any_rt.resultTuple@pre (select H_parser_memo@pre in_p)) q_o)) q_n)))) (lineAt (select H_parser_data@pre in_p) (S_position_offset (S_savepoint_position (S_resultTuple_end (select (select Mval_map_any_rt.resultTuple@pre (select (select Mval_map_int_map_any_rt.resultTuple@pre (select H_parser_memo@pre in_p)) q_o)) q_n))))))) (= (S_position_col (S_savepoint_position (S_resultTuple_end (select (select Mval_map_any_rt.resultTuple@pre (select (select Mval_map_int_map_any_rt.resultTuple@pre (select H_parser_memo@pre in_p)) q_o)) q_n)))) (colAt (select H_parser_data@pre in_p) (S_position_offset (S_savepoint_position (S_resultTuple_end (select (select Mval_map_any_rt.resultTuple@pre (select (select Mval_map_int_map_any_rt.resultTuple@pre (select H_parser_memo@pre in_p)) q_o)) q_n))))))) (>= (S_position_offset (S_savepoint_position (S_resultTuple_end (select (select Mval_map_any_rt.resultTuple@pre (select (select Mval_map_int_map_any_rt.resultTuple@pre (select H_parser_memo@pre in_p)) q_o)) q_n)))) q_o)) (=> (not (S_resultTuple_b (select (select Mval_map_any_rt.resultTuple@pre (select (select Mval_map_int_map_any_rt.resultTuple@pre (select H_parser_memo@pre in_p)) q_o)) q_n))) (and (= (S_position_offset (S_savepoint_position (S_resultTuple_end (select (select Mval_map_any_rt.resultTuple@pre (select (select Mval_map_int_map_any_rt.resultTuple@pre (select H_parser_memo@pre in_p)) q_o)) q_n)))) q_o) (= (S_resultTuple_v (select (select Mval_map_any_rt.resultTuple@pre (select (select Mval_map_int_map_any_rt.resultTuple@pre (select H_parser_memo@pre in_p)) q_o)) q_n)) nilAny)))) (ite (= (typeOf q_n) 1) (and (not (= (unbox_Int q_n) 0)) (DR (unbox_Int q_n) (select H_parser_data@pre in_p) q_o (S_resultTuple_b (select (select Mval_map_any_rt.resultTuple@pre (select (select Mval_map_int_map_any_rt.resultTuple@pre (select H_parser_memo@pre in_p)) q_o)) q_n)) (S_position_offset (S_savepoint_position (S_resultTuple_end (select (select Mval_map_any_rt.resultTuple@pre (select (select Mval_map_int_map_any_rt.resultTuple@pre (select H_parser_memo@pre in_p)) q_o)) q_n)))) (S_resultTuple_v (select (select Mval_map_any_rt.resultTuple@pre (select (select Mval_map_int_map_any_rt.resultTuple@pre (select H_parser_memo@pre in_p)) q_o)) q_n)))) (and (IsNode q_n) (D q_n (select H_parser_data@pre in_p) q_o (S_resultTuple_b (select (select Mval_map_any_rt.resultTuple@pre (select (select Mval_map_int_map_any_rt.resultTuple@pre (select H_parser_memo@pre in_p)) q_o)) q_n)) (S_position_offset (S_savepoint_position (S_resultTuple_end (select (select Mval_map_any_rt.resultTuple@pre (select (select Mval_map_int_map_any_rt.resultTuple@pre (select H_parser_memo@pre in_p)) q_o)) q_n)))) (S_resultTuple_v (select (select Mval_map_any_rt.resultTuple@pre (select (select Mval_map_int_map_any_rt.resultTuple@pre (select H_parser_memo@pre in_p)) q_o)) q_n))))))) :pattern ((select (select Mdom_map_any_rt.resultTuple@pre (select (select Mval_map_int_map_any_rt.resultTuple@pre (select H_parser_memo@pre in_p)) q_o)) q_n)))))) (and (>= (len_Slice_Int (select H_parser_vstack@pre in_p)) 1) (>= (len_Slice_Int (select H_parser_rstack@pre in_p)) 1))) (not (= in_and 0))))
 (assert (<= (select H_Stats_ExprCnt@pre (select H_parser_Stats@pre in_p)) (select H_parser_maxExprCnt@pre in_p)))
-(assert (not (select H_parser_debug@pre in_p)))
+(assert (and (not (= in_p 0)) (and (and (and (and (not (= (S_current_state (select H_parser_cur@pre in_p)) 0)) (select Alloc@pre (S_current_state (select H_parser_cur@pre in_p)))) (not (= (S_current_globalStore (select H_parser_cur@pre in_p)) 0))) (select Alloc@pre (S_current_globalStore (select H_parser_cur@pre in_p)))) (not (= (S_current_state (select H_parser_cur@pre in_p)) (S_current_globalStore (select H_parser_cur@pre in_p)))))))
+(assert (= H_parser_depth!2 (store H_parser_depth@pre in_p hv!1)))
+(assert (forall ((r Int)) (! (=> (select Alloc@pre r) (select Alloc!3 r)) :pattern ((select Alloc!3 r)))))
+(assert (and (not (= ret_parser_cloneState!4 0)) (select Alloc!3 ret_parser_cloneState!4) (not (select Alloc@pre ret_parser_cloneState!4))))
+(assert (forall ((q_k Str)) (! (and (= (select (select Mdom_storeDict@pre ret_parser_cloneState!4) q_k) (select (select Mdom_storeDict@pre (S_current_state (select H_parser_cur@pre in_p))) q_k)) (=> (select (select Mdom_storeDict@pre ret_parser_cloneState!4) q_k) (CloneEq (select (select Mval_storeDict@pre ret_parser_cloneState!4) q_k) (select (select Mval_storeDict@pre (S_current_state (select H_parser_cur@pre in_p))) q_k)))) :pattern ((select (select Mdom_storeDict@pre ret_parser_cloneState!4) q_k)))))
 (assert (not (and (= (S_current_pos (select H_parser_cur@pre in_p)) (S_savepoint_position (select H_parser_pt@pre in_p))) (= (len_Slice_Int (S_current_text (select H_parser_cur@pre in_p))) 0))))
 (check-sat)
-(get-value (in_p in_state))
+(get-value (in_p in_and))
